@@ -22,6 +22,15 @@ fn main() {
         "__child" => child::main(&args[2..]),
         "__probe" => parent::probe(&args[2..]),
         "__sdl" => println!("{}", schema::plain().sdl()),
+        "__gen" => {
+            // hidden: print n generated inputs (all features on) as JSON lines
+            let n: usize = args[2].parse().unwrap();
+            let seed: u64 = args[3].parse().unwrap();
+            let mut g = generate::Gen::new(vh_core::Rng::new(seed), true, true, true, true, false);
+            for _ in 0..n {
+                println!("{}", serde_json::to_string(&g.input()).unwrap());
+            }
+        }
         "__parse" => {
             // hidden: parse_query only (no validation / execution) of a nesting construct, for attribution
             let c = args[2].clone();
